@@ -101,7 +101,8 @@ def add_shared_memory_env(c, wport, rport, name, A, lane, init_byte, Q=3, min_wr
     return _memory_env(c, name, A, lane, init_byte, Q, min_write_delay, wport=wport, rport=rport)
 
 
-def _memory_env(c, name, A, lane, init_byte, Q, min_write_delay, wport, rport):
+def _memory_env(c, name, A, lane, init_byte, Q, min_write_delay, wport, rport, corrupt=None, shared_timing=False):
+    """corrupt: optional 8-bit term XOR-ed into the byte returned for the watched cell (fault injection)"""
     same = wport is rport or wport is None or rport is None
     anyp = wport if wport is not None else rport
     nl = len(wport.wdata.we) if wport is not None else len(rport.rdata.data) // 8
@@ -207,7 +208,8 @@ def _memory_env(c, name, A, lane, init_byte, Q, min_write_delay, wport, rport):
             sr, fr = oldest(f, False)
             rhit = Or(*[And(sr[i], G(f, "hit%d" % i) == 1) for i in range(Q)])
             return Implies(rret(f), And(fr, conflict_free(f, sr, False),
-                                        Implies(rhit, byte_at(f(rport.rdata.data), lane, len(rport.rdata.data) // 8) == G(f, "mem"))))
+                                        Implies(rhit, byte_at(f(rport.rdata.data), lane, len(rport.rdata.data) // 8) ==
+                                                (G(f, "mem") if corrupt is None else G(f, "mem") ^ corrupt))))
         c.assume(name + ".read_return_serves_oldest_pending_read_with_memory_content", rd_ok)
     return dict(G=G, cnt=cnt, acc=acc, hit=hit)
 
